@@ -34,12 +34,13 @@ const (
 // Argument forms of Query.arg (leaf) and Query.targ (composite; added to the probe schema by
 // this check: extend type Query { targ(x: Int = 6): T }).
 const (
-	ArgNone = iota // arg                    -> x = schema default (arg: 7, targ: 6), y absent
-	ArgLit         // arg(x: 3)
-	ArgVar         // arg(x: $v)             -> depends on the variable mode
-	ArgBoth        // arg(x: 2, y: ["p","q"])
-	ArgNeg         // arg(x: -4)             -> custom "child+x" becomes negative
-	ArgNull        // arg(x: null)
+	ArgNone     = iota // arg                    -> x = schema default (arg: 7, targ: 6), y absent
+	ArgLit             // arg(x: 3)
+	ArgVar             // arg(x: $v)             -> depends on the variable mode
+	ArgBoth            // arg(x: 2, y: ["p","q"])
+	ArgNeg             // arg(x: -4)             -> custom "child+x" becomes negative
+	ArgNull            // arg(x: null)
+	ArgTypeName        // __type(name: "T")      (the only form of the meta field __type)
 )
 
 // argDefault: schema default of argument x per field with arguments.
@@ -96,7 +97,10 @@ var scalars = map[string]bool{"String": true, "ID": true, "Int": true}
 
 var schemaTab = map[string]*typeDef{
 	"Query": {Kind: "OBJECT", Objects: []string{"Query"}, Fields: []fieldDef{
-		{"t", "T"}, {"tReq", "T"}, {"ts", "T"}, {"node", "Node"}, {"u", "U"}, {"str", "String"}, {"strReq", "String"}, {"arg", "String"}, {"targ", "T"}, {"rep", "Rep"}}},
+		{"t", "T"}, {"tReq", "T"}, {"ts", "T"}, {"node", "Node"}, {"u", "U"}, {"str", "String"}, {"strReq", "String"}, {"arg", "String"}, {"targ", "T"}, {"rep", "Rep"},
+		{"__schema", "__Schema"}, {"__type", "__Type"}}}, // meta fields of the query root
+	"__Schema": {Kind: "OBJECT", Objects: []string{"__Schema"}, Fields: []fieldDef{{"queryType", "__Type"}}},
+	"__Type":   {Kind: "OBJECT", Objects: []string{"__Type"}, Fields: []fieldDef{{"name", "String"}}},
 	// Rep/Row are added by this check (c14_extra.graphql, hand-written Go model): schema fields
 	// that share ONE Go field and therefore one ComplexityRoot member
 	"Rep":      {Kind: "OBJECT", Objects: []string{"Rep"}, Fields: []fieldDef{{"old", "Row"}, {"rows", "Row"}, {"newFoo", "String"}, {"new_foo", "String"}}},
@@ -224,6 +228,9 @@ func (g *Grammar) nodes(parent string, k int) []*Node {
 		if parent == "Query" && fname == "targ" {
 			forms = g.TargForms
 		}
+		if parent == "Query" && fname == "__type" {
+			forms = []int{ArgTypeName}
+		}
 		for _, a := range aliases {
 			for _, f := range forms {
 				for _, kids := range g.sets(ft, k-1) {
@@ -240,8 +247,12 @@ func (g *Grammar) nodes(parent string, k int) []*Node {
 			if !overlap(parent, x) {
 				continue
 			}
-			for _, kids := range g.sets(x, k-1) {
-				out = append(out, &Node{Kind: KInline, Cond: x, Kids: kids})
+			// at the query root "... on Query {}" would only repeat "... {}" (enumerated above);
+			// the root type condition is used for named fragments only
+			if x != "Query" {
+				for _, kids := range g.sets(x, k-1) {
+					out = append(out, &Node{Kind: KInline, Cond: x, Kids: kids})
+				}
 			}
 			for _, kids := range g.sets(x, k-1) {
 				out = append(out, &Node{Kind: KDef, Cond: x, Kids: kids})
@@ -431,6 +442,8 @@ func (op *Op) Text() string {
 					b.WriteString("(x:-4)")
 				case ArgNull:
 					b.WriteString("(x:null)")
+				case ArgTypeName:
+					b.WriteString(`(name:"T")`)
 				}
 				if len(n.Kids) > 0 {
 					sel(n.Kids, b)
@@ -474,7 +487,7 @@ func (op *Op) RelevantFields() []string {
 		for _, n := range sels {
 			switch n.Kind {
 			case KField:
-				if n.Name != "__typename" {
+				if !strings.HasPrefix(n.Name, "__") && !strings.HasPrefix(parent, "__") {
 					for _, o := range schemaTab[parent].Objects {
 						set[canon(o+"."+n.Name)] = true
 					}
